@@ -555,7 +555,7 @@ fn inject(rng: &mut Rng, s: &Schema, doc: &mut Doc, kind: &str) -> Option<Fault>
                 }
             }
         }
-        // ---- the known defects, injected on purpose
+        // ---- the known defects, injected on purpose (same-interface-inline-bad-field: fixed by 762f951, now an ordinary fault that must be flagged)
         "unspread-fragment-bad-field" => {
             let c = rng.pick(&s.composites()).clone();
             let n = format!("FU{}", doc.frags.len());
@@ -600,7 +600,7 @@ fn inject(rng: &mut Rng, s: &Schema, doc: &mut Doc, kind: &str) -> Option<Fault>
 
 /// known-finding classes that explain why the implementation is silent about the fault
 fn classes_of(s: &Schema, doc: &Doc, faults: &[Fault], kinds: &[String]) -> Vec<String> {
-    let (walked, spread) = visited(s, doc, true);
+    let (walked, spread) = visited(s, doc, false);   // no fast path any more (commit 762f951)
     let (reach, spread_all) = visited(s, doc, false);
     let mut out = BTreeSet::new();
     for (f, k) in faults.iter().zip(kinds) {
@@ -608,12 +608,12 @@ fn classes_of(s: &Schema, doc: &Doc, faults: &[Fault], kinds: &[String]) -> Vec<
             Site::Slot(id) => {
                 // the fault sits in list `id` or in a list below it: it is looked at iff `id` is walked
                 if !reach.contains(id) { out.insert("unspread-fragment-unchecked".to_string()); }
-                else if !walked.contains(id) { out.insert("same-interface-fragment-skipped".to_string()); }
+                let _ = &walked;
             }
             Site::FragDirs(i) => {
                 let n = &doc.frags[*i].name;
                 if !spread_all.contains(n) { out.insert("unspread-fragment-unchecked".to_string()); }
-                else if !spread.contains(n) { out.insert("same-interface-fragment-skipped".to_string()); }
+                let _ = &spread;
             }
             Site::Doc => {}
         }
@@ -761,8 +761,8 @@ fn corpus() -> Vec<(&'static str, &'static str, Vec<&'static str>, &'static str)
     vec![
         // known defects
         (S1, "query Q { a { id } }\nfragment U on A { nonexistent }\n", vec!["unspread-fragment-unchecked"], "unspread fragment is never validated"),
-        (S1, "query Q { i { ... on I { nonexistent } } }\n", vec!["same-interface-fragment-skipped"], "inline fragment on the enclosing interface is skipped"),
-        (S1, "query Q { i { ...F } }\nfragment F on I { nonexistent @nope ...Missing }\n", vec!["same-interface-fragment-skipped"], "spread of a fragment on the enclosing interface is skipped"),
+        (S1, "query Q { i { ... on I { nonexistent } } }\n", vec![], "inline fragment on the enclosing interface (skipped before commit 762f951)"),
+        (S1, "query Q { i { ...F } }\nfragment F on I { nonexistent @nope ...Missing }\n", vec![], "spread of a fragment on the enclosing interface (skipped before commit 762f951)"),
         (S1, "query Q { a { a(j: {k: $nope}) } }\n", vec!["variable-inside-custom-scalar-literal-unchecked"], "variables inside custom scalar literals are not looked at"),
         (S1, "query Q { a { a(x: 1, x: \"s\") } }\n", vec!["duplicate-argument-value-unchecked"], "only the first of two values given for one argument is type-checked"),
         // behaviour fixed by the fix: commits (regressions would show as disagreement / property failure)
